@@ -87,6 +87,9 @@ func main() {
 
 func debugRun(dir, pat string, rest []string) int {
 	e := NewEngine()
+	if v := os.Getenv("GOVC_PROP"); v != "" {
+		currentPropID = v // property-scoped clauses (static_only Cnn, stop [Cnn]) behave as in `check Cnn`
+	}
 	verbose := false
 	var roots []string
 	for _, r := range rest {
